@@ -50,9 +50,10 @@ Print Assumptions C18_kernel_agrees_with_realpath.
    tree-shaped state [s] every member [fits]: what lies on the way to it is free or a real directory, and
    nothing exists yet under the name of a regular member.  Then the archive is extracted completely (outcome
    OOk) and every regular member is found under its name with its content, owner-readable and -writable.
+   ([leaving s R <> None]: the links already present below R resolve within the model's fuel.)
    (Overwriting files that already exist is outside this theorem; the correspondence run covers it.) *)
 Theorem C18_benign_extracted : forall (R : rpath) (archive : list member) (s : state),
-  WF s -> node_at s R = Some NDir -> InoOk s ->
+  WF s -> node_at s R = Some NDir -> InoOk s -> leaving s R <> None ->
   (forall m, In m archive -> plain (comps (m_name m)) /\ fits R s m) ->
   consistent archive ->
   exists s', untar R archive s = (OOk, s') /\
@@ -61,6 +62,20 @@ Theorem C18_benign_extracted : forall (R : rpath) (archive : list member) (s : s
                 lookup i (files s') = Some {| f_data := d; f_orw := true |}.
 Proof. exact benign_extracted. Qed.
 Print Assumptions C18_benign_extracted.
+
+(* --- 5. Links cannot be left behind to be used later.  A link is validated when it is created, but what it
+   resolves to can change with the links created after it; untar_file therefore revalidates the links at the
+   end.  Whatever the archive and whatever the outcome (extracted, refused, failed — the model's own
+   out-of-fuel outcome excepted): every symbolic link below R that resolves outside R afterwards (as
+   os.path.realpath sees it, which by theorem 3 is where the kernel would go) was already below R before,
+   with the same text, and already resolved outside R.  So nothing that runs after the extraction (the caller
+   upgrades the dataset in place) can be led outside R through a link of the archive. *)
+Theorem C18_no_new_link_leaves : forall (R : rpath) (archive : list member) (s : state) before,
+  leaving s R = Some before ->
+  fst (untar R archive s) <> OFuel ->
+  exists after, leaving (snd (untar R archive s)) R = Some after /\ forall e, In e after -> In e before.
+Proof. exact untar_links_stay. Qed.
+Print Assumptions C18_no_new_link_leaves.
 
 (* --- non-vacuity and the hostile cases of the property on a concrete, populated tree:
      /p/install            the install directory R, with  pre/old.txt  and  ext -> ../outdir  (user-made)
@@ -91,11 +106,12 @@ Proof. vm_compute. repeat split. Qed.
 Definition benign0 : list member :=
   [MDir "./"; MReg "a/b/f.txt" "data"; MDir "a/b"; MReg "./g.txt" "z"; MReg "pre/new.txt" "n"; MDir "pre"].
 Example C18_example_benign_hypotheses :
-  WF st0 /\ node_at st0 R0 = Some NDir /\ InoOk st0 /\
+  WF st0 /\ node_at st0 R0 = Some NDir /\ InoOk st0 /\ leaving st0 R0 <> None /\
   (forall m, In m benign0 -> plain (comps (m_name m)) /\ fits R0 st0 m) /\ consistent benign0.
 Proof.
   split; [apply wfb_WF; vm_compute; reflexivity|]. split; [reflexivity|].
-  split; [apply inookb_InoOk; vm_compute; reflexivity|]. split; [|apply consistentb_ok; vm_compute; reflexivity].
+  split; [apply inookb_InoOk; vm_compute; reflexivity|]. split; [vm_compute; discriminate|].
+  split; [|apply consistentb_ok; vm_compute; reflexivity].
   assert (H : forallb (fun m => plainb (comps (m_name m)) && fitsb R0 st0 m) benign0 = true) by (vm_compute; reflexivity).
   rewrite forallb_forall in H. intros m I. specialize (H m I). apply andb_true_iff in H. destruct H as [H1 H2].
   split; [apply plainb_ok; exact H1 | apply fitsb_ok; exact H2].
@@ -130,14 +146,18 @@ Example C18_example_backslash_is_a_name_character :
   /\ lookup 2 (files (snd r)) = Some {| f_data := "precious"; f_orw := true |}.
 Proof. vm_compute. repeat split. Qed.
 
-(* "no link inside R points outside R" is NOT an invariant of the extraction (CPython 3.12 re-creates a link
-   at another depth when a hard link names a dangling symbolic link): after these two accepted members
-   R/out -> ../outdir leaves R.  Confinement does not rest on such an invariant: the third member, which would
-   replace the outside link outdir/back, is refused because its name goes through a link. *)
+(* "no link inside R points outside R" is NOT an invariant of the member-by-member validation (a hard link
+   naming a symbolic link duplicates it at another depth): with the per-member checks alone R/out -> ../outdir
+   is left behind after two accepted members.  Confinement does not rest on such an invariant (a third member
+   that would replace the outside link outdir/back through it is refused because its name goes through a link);
+   and the final revalidation of untar_file removes the duplicated link and reports the archive. *)
 Example C18_example_link_duplication :
-  let r2 := untar R0 [MSym "d/l" "../outdir"; MHard "out" "d/l"] st0 in
+  let r2 := untar_no_revalidation R0 [MSym "d/l" "../outdir"; MHard "out" "d/l"] st0 in
   fst r2 = OOk /\ node_at (snd r2) ("out" :: R0) = Some (NSym "../outdir")
-  /\ fst (untar R0 [MSym "d/l" "../outdir"; MHard "out" "d/l"; MSym "out/back" "../install/y"] st0) = OFilter FOutside.
+  /\ fst (untar_no_revalidation R0 [MSym "d/l" "../outdir"; MHard "out" "d/l"; MSym "out/back" "../install/y"] st0)
+     = OFilter FOutside
+  /\ fst (untar R0 [MSym "d/l" "../outdir"; MHard "out" "d/l"] st0) = OFilter FLeaves
+  /\ node_at (snd (untar R0 [MSym "d/l" "../outdir"; MHard "out" "d/l"] st0)) ("out" :: R0) = None.
 Proof. vm_compute. repeat split. Qed.
 
 (* --- the behaviour before the repair is refuted: without an extraction filter the member "../escaped.txt"
@@ -178,3 +198,37 @@ Lemma C18_needs_no_link_in_name :
   let archive := [MSym "d/l" "../outdir"; MHard "out" "d/l"; MSym "out/back" "../install/y"] in
   node_at (snd (untar_data_only R0 archive st0)) ["back"; "outdir"; "p"] = Some (NSym "../install/y").
 Proof. vm_compute. reflexivity. Qed.
+
+(* --- the first repair (own filter, own link creation) without the final revalidation is refuted: each link
+   of this archive points inside R when it is created (b -> c/d and a -> b/../.. while c does not exist);
+   c -> . then re-points a to the parent of R.  The extraction succeeds, k/sensors/sensors.txt resolves to
+   /p/victim/sensors/sensors.txt, and the kernel opens that outside file for writing through it — which
+   is what the in-place upgrade run by the caller after the extraction does (confirmed on the real code). *)
+Definition repoint : list member :=
+  [MSym "b" "c/d"; MSym "a" "b/../.."; MSym "k/sensors/sensors.txt" "../../a/victim/sensors/sensors.txt";
+   MSym "c" "."; MDir "d"].
+Definition st1 : state :=
+  {| nodes := nodes st0 ++ [(["victim"; "p"], NDir); (["sensors"; "victim"; "p"], NDir);
+                            (["sensors.txt"; "sensors"; "victim"; "p"], NFile 4)];
+     files := files st0 ++ [(4, {| f_data := "# kapture format: 1.0"; f_orw := true |})];
+     next := 5 |}.
+
+Lemma C18_no_revalidation_refuted :
+  let r := untar_no_revalidation R0 repoint st1 in
+  fst r = OOk
+  /\ leaving st1 R0 = Some [("ext" :: R0, "../outdir")]
+  /\ leaving (snd r) R0 = Some [("ext" :: R0, "../outdir"); ("a" :: R0, "b/../..");
+                                ("sensors.txt" :: "sensors" :: "k" :: R0, "../../a/victim/sensors/sensors.txt")]
+  /\ walk Create (snd r) 100 [] R0 ["k"; "sensors"; "sensors.txt"] = WOk ["sensors.txt"; "sensors"; "victim"; "p"].
+Proof. vm_compute. repeat split. Qed.
+
+(* the tree under test refuses that archive: the two links that have come to lead outside are removed, the
+   user-made link ext, which led outside before, is left alone *)
+Example C18_example_repointed_links_removed :
+  let r := untar R0 repoint st1 in
+  fst r = OFilter FLeaves
+  /\ node_at (snd r) ("a" :: R0) = None
+  /\ node_at (snd r) ("sensors.txt" :: "sensors" :: "k" :: R0) = None
+  /\ node_at (snd r) ("c" :: R0) = Some (NSym ".")
+  /\ leaving (snd r) R0 = Some [("ext" :: R0, "../outdir")].
+Proof. vm_compute. repeat split. Qed.
